@@ -384,5 +384,44 @@ def run(facts, prop=None):
                 res.notes.append("allowlisted: %s" % key)
             else:
                 res.ok(key, b.loc(bi), how, nontrivial=nt)
+    # explicit wrapping / overflowing integer arithmetic on caller-controlled integers wraps silently in
+    # *every* profile: same obligation as an unchecked operator (pointer wrapping_add is not integer arithmetic)
+    n_wrap = 0
+    for b in facts.fn_bodies():
+        eb = ExprBuilder(b, facts, inline=True)
+        for bi, t in b.calls():
+            if b.blocks[bi]["cleanup"]:
+                continue
+            fn = callee(t)
+            if fn is None:
+                continue
+            r = fn.get("res") or fn
+            p_ = r["path"]
+            if not (p_.startswith("core::num::<impl ") and fn["name"] in ("wrapping_add", "wrapping_sub", "wrapping_mul", "wrapping_shl", "wrapping_shr",
+                                                                             "overflowing_add", "overflowing_sub", "overflowing_mul", "wrapping_neg")):
+                continue
+            n_wrap += 1
+            if not in_scope(b.id, prop):
+                continue
+            loc = (bi, len(b.blocks[bi]["stmts"]))
+            args = [eb.operand(a, loc) for a in t["args"]]
+            key = "%s|%s|%s" % (b.id, fn["name"], " , ".join(short(a) for a in args))
+            tainted = b.safety != "unsafe" and any(e1.tainted(a, b) for a in args)
+            if not tainted:
+                res.ok(key, b.loc(bi), "operands not caller-controlled")
+                continue
+            rels = e1.derived_relations(relations_at(b, bi))
+            ok = False
+            if fn["name"] in ("wrapping_sub", "overflowing_sub") and len(args) == 2 and e1.le_holds(args[1], args[0], rels):
+                ok = True
+            if fn["name"] in ("wrapping_add", "overflowing_add") and len(args) == 2 and e1.is_ab(args[0], rels) and e1.is_ab(args[1], rels):
+                ok = True
+            fullkey = "E1|" + key
+            if ok:
+                res.ok(key, b.loc(bi), "guarded: cannot wrap", nontrivial=True)
+            elif fullkey in ALLOW:
+                res.ok(key, b.loc(bi), "ALLOWLISTED: " + ALLOW[fullkey], nontrivial=True)
+            else:
+                res.bad(key, b.loc(bi), "`%s` on a caller-controlled integer without a guard: the result wraps silently (no panic in any profile)" % fn["name"])
     res.floor("overflow_assert_sites", n, 60)
     return res
